@@ -583,7 +583,18 @@ End Reader.
 
 (* default mappers *)
 Definition default_ser : info -> dict -> dict := fun _ d => d.       (* Tree.serialize_mapper *)
-Definition default_deser_plain : nat -> dict -> res dval := fun _ _ => Err ENotImpl.
+(* Tree.deserialize_mapper: str entries with a custom data_id ({"str", "data_id"}) are read natively (D92 repaired) *)
+Definition default_deser_plain (shash : text -> Z) (_idx : nat) (d : dict) : res dval :=
+  match dget k_str d with
+  | Some v =>
+      if forallb (fun kv => text_eqb (fst kv) k_str || text_eqb (fst kv) k_data_id) d
+      then match v with
+           | JStr s => Ok (DV true s (shash s))
+           | _ => Err ECrash
+           end
+      else Err ENotImpl
+  | None => Err ENotImpl
+  end.
 (* TypedTree.deserialize_mapper *)
 Definition default_deser_typed (shash : text -> Z) (_idx : nat) (d : dict) : res dval :=
   match dget k_str d with
@@ -597,7 +608,7 @@ Definition default_deser_typed (shash : text -> Z) (_idx : nat) (d : dict) : res
   | None => Err ENotImpl
   end.
 Definition default_deser (c : cls) (shash : text -> Z) : nat -> dict -> res dval :=
-  if is_typed c then default_deser_typed shash else default_deser_plain.
+  if is_typed c then default_deser_typed shash else default_deser_plain shash.
 
 (* what is observed of a loaded tree *)
 Fixpoint sx_loaded (t : rt) : sx :=
